@@ -2,6 +2,7 @@ SPECIFICATION Spec
 CONSTANTS
   Alphabet = {32, 38, 46, 65, 68, 69, 78, 95, 97, 98, 101, 103, 105, 110, 233, 12288}
   N = 5
+  Prefixes <- PrefixesNone
 INVARIANTS Lossless OneEofLast NonEmptyNonBlankStart Emit
 PROPERTIES Progress
 CHECK_DEADLOCK FALSE
